@@ -21,8 +21,8 @@ import (
 // samples Size()/SizeBytes(). Only statements that hold under every interleaving are asserted: limits at every
 // sampled moment, reap results within their limits and duplicate-free, and at the final quiescent point a
 // duplicate-free pool whose Size()/SizeBytes() equal its contents. The contents themselves depend on the
-// schedule and are not predicted. Flush (documented as unsafe under concurrency) and RemoveTxByKey (no caller
-// in this tree) are left to the sequential tests.
+// schedule and are not predicted. In some cases an operator goroutine calls Flush (the unsafe_flush_mempool RPC) at
+// drawn points while all this is going on. RemoveTxByKey (no caller in this tree) is left to the sequential tests.
 func TestConcurrentPeers(t *testing.T) {
 	rapid.Check(t, func(rt *rapid.T) {
 		v1 := rapid.Bool().Draw(rt, "v1")
@@ -51,6 +51,10 @@ func TestConcurrentPeers(t *testing.T) {
 			takes[i] = rapid.IntRange(0, 4).Draw(rt, "take")
 		}
 		reapNs := rapid.SliceOfN(rapid.IntRange(0, 4), 2, 8).Draw(rt, "reapNs")
+		var flushAfter []int // Flush calls, each after that many scheduler yields
+		if rapid.IntRange(0, 2).Draw(rt, "withFlush") == 0 {
+			flushAfter = rapid.SliceOfN(rapid.IntRange(0, 40), 1, 3).Draw(rt, "flushAfter")
+		}
 
 		s, err := newSUT(c, a, nil, nil)
 		if err != nil {
@@ -74,6 +78,11 @@ func TestConcurrentPeers(t *testing.T) {
 			wg.Add(1)
 			go func(p int) {
 				defer wg.Done()
+				defer func() { // the p2p layer recovers a panicking Receive and drops the peer
+					if x := recover(); x != nil {
+						fault("peer %d: CheckTx panicked: %v", p+1, x)
+					}
+				}()
 				for _, i := range plans[p] {
 					err := s.mp.CheckTx(txs[i], nil, mempool.TxInfo{SenderID: uint16(p + 1)})
 					logf("peer %d CheckTx(%c) -> %s", p+1, letter(i), errKind(err))
@@ -102,6 +111,19 @@ func TestConcurrentPeers(t *testing.T) {
 				runtime.Gosched()
 			}
 		}()
+		if len(flushAfter) > 0 {
+			wg.Add(1)
+			go func() { // operator
+				defer wg.Done()
+				for _, y := range flushAfter {
+					for ; y > 0; y-- {
+						runtime.Gosched()
+					}
+					s.mp.Flush()
+					logf("Flush()")
+				}
+			}()
+		}
 		wg.Add(1)
 		go func() { // reaper
 			defer wg.Done()
@@ -175,11 +197,17 @@ func TestConcurrentPeers(t *testing.T) {
 			total += len(p)
 		}
 		lib.Case("TestConcurrentPeers", lib.FP(c, plans, takes, reapNs), nBlocks > 0 && total >= 8,
-			fmt.Sprintf("v1=%v", v1), "cfg:cache-"+cacheClass(c), fmt.Sprintf("final-size:%d", len(listed)))
+			fmt.Sprintf("v1=%v", v1), "cfg:cache-"+cacheClass(c), fmt.Sprintf("final-size:%d", len(listed)), fmt.Sprintf("flushes:%d", len(flushAfter)))
 		if len(faults) > 0 && !v1 && lib.IsKnown(idConc) && overLimitOrDup(faults) {
 			// listed finding: v0 admits concurrently submitted txs without serialising the limit check
 			lib.ObservedKnown(idConc)
 			lib.ExcludedByKnown(idConc)
+			faults = nil
+		}
+		if len(faults) > 0 && !v1 && len(flushAfter) > 0 && lib.IsKnown(idFlush) && accountingOrDup(faults) {
+			// listed finding: v0 Flush interleaves with admissions (orphaned list element, byte count off)
+			lib.ObservedKnown(idFlush)
+			lib.ExcludedByKnown(idFlush)
 			faults = nil
 		}
 		if len(faults) > 0 {
@@ -203,7 +231,19 @@ func dupIn(txs []types.Tx) string {
 // overLimitOrDup: every recorded fault is of the kind the listed v0 admission race produces.
 func overLimitOrDup(faults []string) bool {
 	for _, f := range faults {
-		if !(strings.Contains(f, "exceeds") || strings.Contains(f, "twice") || strings.Contains(f, "outside [0")) {
+		if !(strings.Contains(f, "exceeds") || strings.Contains(f, "twice") || strings.Contains(f, "outside [0") ||
+			strings.Contains(f, "panicked: notified txs available but mempool is empty")) {
+			return false
+		}
+	}
+	return true
+}
+
+// accountingOrDup: every recorded fault is of the kind a Flush interleaved with an admission produces.
+func accountingOrDup(faults []string) bool {
+	for _, f := range faults {
+		if !(strings.Contains(f, "twice") || strings.Contains(f, "but the pool holds") || strings.Contains(f, "final ReapMaxTxs(-1)") || strings.Contains(f, "outside [0") ||
+			strings.Contains(f, "panicked: notified txs available but mempool is empty")) {
 			return false
 		}
 	}
